@@ -9,7 +9,7 @@ CHECK = {
         "the Cleaner receives a context derived from the caller's (used only to attribute a cleaner call to a thread; an untagged call yields INCONCLUSIVE, not a violation)",
         "the build directory is an in-memory fake of builder.BuildDirectory whose root Mkdir fails with EEXIST on an existing name, RemoveAll removes the whole subtree, and a successful cleaning empties the root (what cleaner.NewDirectoryCleaner does)",
         "fallible directory calls of concurrently runnable threads are released one at a time (lowest or highest thread first, generated); at most two faults per run (one generated background fault plus the enumerated one)",
-        "LocalBuildExecutor's deferred buildDirectory.Close() (anchor local_build_executor.go:178-192) is taken as given: the harness always calls Close exactly once per successful GetBuildDirectory, also after cancelling the action's context",
+        "in the isolation sub-checks LocalBuildExecutor's deferred buildDirectory.Close() (anchor local_build_executor.go:178-192) is taken as given (that the real Execute() closes the build directory exactly once on every exit path, and asks for a digest-less directory iff do_not_cache, is decided separately by the executor part, TestC12ExecutorBuildDirectoryLifecycle): the harness always calls Close exactly once per successful GetBuildDirectory, also after cancelling the action's context",
     ],
     "tests": [
         T("isolation", "TestC12IdleInvokerSchedules",
